@@ -61,6 +61,7 @@ class Ctl:
         self.extra = {}
         self.stall_timeout = 30
         self.crash = None
+        self.blocked_kinds = set()
         self.iofault = None      # k: the k-th HDF5 operation of the run fails with OSError (disk full)
         self.h5count = 0
         self.session = 0
@@ -148,6 +149,10 @@ class Ctl:
                     self.verdict = "done"
                     break
                 enabled = sorted([e for e in parked if e.pred is None or e.pred()], key=lambda e: ent_key(e.name))
+                # which kinds of operation some entity has been seen blocked in (e.g. the resolver in result())
+                for e in parked:
+                    if e not in enabled and not callable(e.label) and isinstance(e.label, tuple) and e.label:
+                        self.blocked_kinds.add("%s:%s" % (e.name.rstrip("0123456789"), e.label[0]))
                 if not enabled:
                     self.verdict = "deadlock"
                     break
